@@ -410,9 +410,12 @@ pub fn start_of(raw: &RawHist) -> Option<(String, Pos)> {
         // instead of rejection)
         let mut t = Tape::new(&raw.setup);
         plant_boxed(&mut t).map(|(p, _)| ("planted".to_string(), p)).or_else(|| setup_position(&mut Tape::new(&raw.setup)).map(|p| ("setup".to_string(), p)))
-    } else {
+    } else if raw.start_sel < 0xF400 {
         let mut t = Tape::new(&raw.setup);
         plant_ep_near_king(&mut t).map(|p| ("planted".to_string(), p)).or_else(|| setup_position(&mut Tape::new(&raw.setup)).map(|p| ("setup".to_string(), p)))
+    } else {
+        let mut t = Tape::new(&raw.setup);
+        plant_ep_discovery(&mut t).map(|p| ("planted".to_string(), p)).or_else(|| setup_position(&mut Tape::new(&raw.setup)).map(|p| ("setup".to_string(), p)))
     }
 }
 
@@ -1092,4 +1095,113 @@ pub fn plant_boxed(t: &mut Tape) -> Option<(Pos, &'static str)> {
         return None;
     }
     Some((out, tag))
+}
+
+// ------------------------------------------------------------------ planted: en passant uncovers a line
+
+/// Positions (White to capture, then mirrored at random) in which the en-passant capture removes
+/// the last blocker - or one of exactly two blockers - on a line between a slider of the capturing
+/// side and the enemy king: the rank both pawns leave, or a diagonal through the captured pawn's
+/// square.  After the capture the opponent is in (discovered) check or has a freshly pinned piece;
+/// move application has to notice that from the pawn that is *removed*, which is neither the
+/// source nor the destination of the move.  Built as a validated predecessor plus the reference
+/// model's double push (when the line is a diagonal the pusher stands in check before the push and
+/// the push interposes).
+pub fn plant_ep_discovery(t: &mut Tape) -> Option<Pos> {
+    let mut p = Pos::empty();
+    let fc = t.below(8) as i8;
+    let dx: i8 = if t.chance(1, 2) { 1 } else { -1 };
+    let fd = fc + dx;
+    if !(0..8).contains(&fd) {
+        return None;
+    }
+    let pw = mk(fc, 4)?;
+    let home = mk(fd, 6)?;
+    let mid = mk(fd, 5)?;
+    let land = mk(fd, 4)?;
+    p.board[pw as usize] = Some((Col::W, Kind::P));
+    p.board[home as usize] = Some((Col::B, Kind::P));
+    let mut reserved = bit(mid) | bit(land);
+    // the line through `land`: the rank (both pawns on it) or one of the two diagonals
+    let (lx, ly): (i8, i8) = match t.below(4) {
+        0 | 1 => (1, 0),
+        2 => (1, 1),
+        _ => (1, -1),
+    };
+    // slider on one side, king on the other
+    let side: i8 = if t.chance(1, 2) { 1 } else { -1 };
+    let ds = 1 + t.below(4) as i8;
+    let dk = 1 + t.below(4) as i8;
+    let mut ss = mk(fd + side * lx * ds, 4 + side * ly * ds)?;
+    let mut ks = mk(fd - side * lx * dk, 4 - side * ly * dk)?;
+    // on the rank the capturer stands next to `land`: slider / king must lie beyond it
+    if ly == 0 {
+        if ss == pw {
+            ss = mk(fc + (fc - fd) * ds, 4)?;
+        }
+        if ks == pw {
+            ks = mk(fc + (fc - fd) * dk, 4)?;
+        }
+    }
+    if ss == ks || p.at(ss).is_some() || p.at(ks).is_some() || ss == mid || ks == mid || ss == home || ks == home {
+        return None;
+    }
+    let slider = if ly == 0 { if t.chance(1, 2) { Kind::R } else { Kind::Q } } else if t.chance(1, 2) { Kind::B } else { Kind::Q };
+    p.board[ss as usize] = Some((Col::W, slider));
+    p.board[ks as usize] = Some((Col::B, Kind::K));
+    // squares strictly between slider and king stay empty, except for an optional second blocker
+    let (sf, sr, kf, kr) = (file_of(ss), rank_of(ss), file_of(ks), rank_of(ks));
+    let steps = (kf - sf).abs().max((kr - sr).abs());
+    let (ux, uy) = ((kf - sf).signum(), (kr - sr).signum());
+    let mut between: Vec<Sq> = vec![];
+    for i in 1..steps {
+        between.push(mk(sf + ux * i, sr + uy * i)?);
+    }
+    let free: Vec<Sq> = between.iter().copied().filter(|&q| q != land && q != pw && p.at(q).is_none()).collect();
+    let second = if !free.is_empty() && t.chance(1, 3) { Some(free[t.below(free.len())]) } else { None };
+    for q in &between {
+        if Some(*q) != second {
+            reserved |= bit(*q);
+        }
+    }
+    if let Some(q) = second {
+        let k = [Kind::N, Kind::B, Kind::R, Kind::Q, Kind::P][t.below(5)];
+        if k == Kind::P && (rank_of(q) == 0 || rank_of(q) == 7) {
+            return None;
+        }
+        p.board[q as usize] = Some((Col::B, k));
+    }
+    // white king away from the black king, off the reserved squares
+    let cands: Vec<Sq> = (0..64u8).filter(|&s| p.at(s).is_none() && reserved >> s & 1 == 0 && !adjacent(s, ks)).collect();
+    if cands.is_empty() {
+        return None;
+    }
+    p.board[cands[t.below(cands.len())] as usize] = Some((Col::W, Kind::K));
+    // a few bystanders of either colour off the line
+    for _ in 0..t.below(5) {
+        let c = if t.chance(1, 2) { Col::W } else { Col::B };
+        let k = [Kind::N, Kind::B, Kind::R, Kind::P, Kind::Q][t.below(5)];
+        let spots: Vec<Sq> = (0..64u8).filter(|&s| p.at(s).is_none() && reserved >> s & 1 == 0 && (k != Kind::P || (rank_of(s) != 0 && rank_of(s) != 7))).collect();
+        if spots.is_empty() {
+            break;
+        }
+        p.board[spots[t.below(spots.len())] as usize] = Some((c, k));
+    }
+    p.stm = Col::B;
+    // the side that is not to move before the push must not be in check
+    clear_attackers(&mut p, Col::W);
+    let push = Mv::new(home, land, None);
+    if p.at(pw) != Some((Col::W, Kind::P)) || p.at(ss) != Some((Col::W, slider)) || p.validate().is_err() || !p.pseudo_moves().contains(&push) || !p.is_legal(push) {
+        return None;
+    }
+    let out = p.apply(push);
+    if out.validate().is_err() {
+        return None;
+    }
+    let out = if t.chance(1, 2) { out.mirror_v() } else { out };
+    let out = if t.chance(1, 2) { out.mirror_h() } else { out };
+    if out.validate().is_err() {
+        return None;
+    }
+    Some(out)
 }
